@@ -69,6 +69,10 @@ Proof.
   intros l u. apply lift_list. apply Forall_forall. intros n _. apply lift_under.
 Qed.
 
+Lemma invB_dir_par : forall u d l, dir_parallel d = true ->
+  forallb (invB u) [NDir d l] = forallb (invB true) l.
+Proof. intros u d l H. cbn. rewrite H, orb_true_r, andb_true_r. reflexivity. Qed.
+
 Section B.
   Variable incs : list acc.
   Variable sc : bool.
@@ -98,7 +102,7 @@ Section B.
       destruct (ompparloop_ok incs sc lt disc (NLoop lt disc body)); try discriminate.
       inversion H; subst. apply forallb_splice; [exact Hm|].
       rewrite (nth_range1 _ _ _ En) in Esel.
-      cbn [forallb invB]. rewrite andb_true_r.
+      rewrite invB_dir_par by reflexivity.
       apply (lift_all [NLoop lt disc body] (existsb anc_is_dir ancs) Esel).
       cbn [forallb]. rewrite (forallb_nth _ _ _ _ Hm En). reflexivity.
     - (* omp do *)
@@ -107,7 +111,7 @@ Section B.
       destruct (omploop_ok incs lt (NLoop lt disc body)); try discriminate.
       inversion H; subst. apply forallb_splice; [exact Hm|].
       rewrite (nth_range1 _ _ _ En) in Esel.
-      cbn [forallb invB]. rewrite andb_true_r.
+      rewrite invB_dir_par by reflexivity.
       apply (lift_all [NLoop lt disc body] (existsb anc_is_dir ancs) Esel).
       cbn [forallb]. rewrite (forallb_nth _ _ _ _ Hm En). reflexivity.
     - (* acc loop *)
@@ -116,19 +120,19 @@ Section B.
       destruct (accloop_ok incs lt (NLoop lt disc body) da sq c2); try discriminate.
       inversion H; subst. apply forallb_splice; [exact Hm|].
       rewrite (nth_range1 _ _ _ En) in Esel.
-      cbn [forallb invB]. rewrite andb_true_r.
-      destruct sq; cbn [accloop_dir dir_parallel].
-      + rewrite orb_false_r. cbn [forallb]. rewrite (forallb_nth _ _ _ _ Hm En). reflexivity.
-      + rewrite orb_true_r.
+      destruct sq; cbn [accloop_dir].
+      + cbn. rewrite orb_false_r, !andb_true_r.
+        pose proof (forallb_nth _ _ _ _ Hm En) as Hn. cbn in Hn. exact Hn.
+      + rewrite invB_dir_par by reflexivity.
         apply (lift_all [NLoop lt disc body] (existsb anc_is_dir ancs) Esel).
         cbn [forallb]. rewrite (forallb_nth _ _ _ _ Hm En). reflexivity.
     - (* omp parallel *)
       rewrite (region_shape _ _ _ _ _ _ H). apply forallb_splice; [exact Hm|].
-      cbn [forallb invB]. rewrite andb_true_r.
+      rewrite invB_dir_par by reflexivity.
       apply (lift_all _ (existsb anc_is_dir ancs) Esel). apply forallb_range. exact Hm.
     - (* acc parallel *)
       rewrite (region_shape _ _ _ _ _ _ H). apply forallb_splice; [exact Hm|].
-      cbn [forallb invB]. rewrite andb_true_r.
+      rewrite invB_dir_par by reflexivity.
       apply (lift_all _ (existsb anc_is_dir ancs) Esel). apply forallb_range. exact Hm.
   Qed.
 
